@@ -188,16 +188,30 @@ class _SessionEntry:
     expires_at: float
     principal_key: str
     lock: threading.RLock
+    # Set (under ``lock``) the moment ``state.close()`` is about to run, never
+    # cleared: the close hook runs at most once per entry.
+    closed: bool = False
 
 
 class _SessionRegistry:
     """Per-worker in-process dict of live sessions.
 
     The registry's own lock protects the dict's identity (insertion,
-    deletion, iteration); per-entry RLocks (held only during dispatch)
-    serialize concurrent calls on the same session. The registry lock
-    is never held during dispatch — it's a fast-path mutex for
-    metadata, not a serialization point.
+    deletion, iteration); per-entry RLocks (held during dispatch and
+    while ``state.close()`` runs) serialize concurrent calls on the same
+    session. The registry lock is never held during dispatch — it's a
+    fast-path mutex for metadata, not a serialization point.
+
+    Locking discipline: every path that ends a session (``close``, TTL
+    expiry in ``get`` / ``drain_expired``, ``shutdown``) first removes
+    the entry from the dict under the registry lock, releases the
+    registry lock, and only then runs ``state.close()`` while holding
+    that entry's RLock (:meth:`_close_entry`). The close hook therefore
+    waits for an in-flight call on the session, runs at most once, and a
+    caller that acquired the entry lock can tell — via :meth:`is_live` —
+    whether the session was ended while it was queued. The registry lock
+    is never held while an entry lock is being acquired, so the lock
+    order is always entry lock → registry lock.
     """
 
     def __init__(self, default_ttl: float) -> None:
@@ -267,17 +281,30 @@ class _SessionRegistry:
         forged token could not have valid AAD in the first place.
         """
         now = time.time()
+        expired: _SessionEntry | None = None
         with self._lock:
             entry = self._entries.get(session_id)
             if entry is None:
                 return None
             if entry.expires_at < now:
                 del self._entries[session_id]
-                self._close_state_suppressed(entry.state)
+                expired = entry
+            elif entry.principal_key != principal_key:
                 return None
-            if entry.principal_key != principal_key:
-                return None
+        if expired is not None:
+            self._close_entry(expired)
+            return None
         return entry
+
+    def is_live(self, session_id: bytes, entry: _SessionEntry) -> bool:
+        """Whether *entry* is still the registered entry for *session_id*.
+
+        A caller that looked an entry up and then waited for its lock must
+        re-validate with this once it holds the lock: the session may have
+        been closed, expired or shut down in between.
+        """
+        with self._lock:
+            return self._entries.get(session_id) is entry
 
     def close(self, session_id: bytes) -> bool:
         """Remove a session and invoke ``state.close()``. Returns ``True`` on hit."""
@@ -285,7 +312,7 @@ class _SessionRegistry:
             entry = self._entries.pop(session_id, None)
         if entry is None:
             return False
-        self._close_state_suppressed(entry.state)
+        self._close_entry(entry)
         return True
 
     def drain_expired(self, now: float | None = None) -> int:
@@ -296,7 +323,7 @@ class _SessionRegistry:
             expired_sids = [sid for sid, e in self._entries.items() if e.expires_at < now]
             expired = [self._entries.pop(sid) for sid in expired_sids]
         for entry in expired:
-            self._close_state_suppressed(entry.state)
+            self._close_entry(entry)
         return len(expired)
 
     def shutdown(self) -> None:
@@ -310,7 +337,7 @@ class _SessionRegistry:
             entries = list(self._entries.values())
             self._entries.clear()
         for entry in entries:
-            self._close_state_suppressed(entry.state)
+            self._close_entry(entry)
 
     def __len__(self) -> int:
         with self._lock:
@@ -319,6 +346,21 @@ class _SessionRegistry:
     def __iter__(self) -> Iterator[bytes]:
         with self._lock:
             return iter(list(self._entries.keys()))
+
+    @classmethod
+    def _close_entry(cls, entry: _SessionEntry) -> None:
+        """Run the close hook of an entry that was just removed from the registry.
+
+        Holds the entry's RLock for the duration, so the hook waits for an
+        in-flight call on the session (and is re-entrant for the dispatching
+        thread's own ``close_session``), and runs at most once per entry.
+        Must be called WITHOUT the registry lock held.
+        """
+        with entry.lock:
+            if entry.closed:
+                return
+            entry.closed = True
+            cls._close_state_suppressed(entry.state)
 
     @staticmethod
     def _close_state_suppressed(state: object) -> None:
@@ -533,6 +575,19 @@ class _StickyMiddleware:
                     raise SessionLostError(
                         "session not found, expired, or principal mismatch",
                     )
+                # Acquire the per-session RLock for the duration of dispatch.
+                # Released in process_response. Same-session concurrent calls
+                # serialize here; different-session calls run in parallel.
+                entry.lock.acquire()
+                # The session may have been ended (DELETE, close_session in the
+                # call we queued behind, TTL reaper, shutdown) between the
+                # lookup and the lock acquisition: re-validate now that no
+                # close hook can run concurrently with us.
+                if not self._registry.is_live(session_id, entry):
+                    entry.lock.release()
+                    raise SessionLostError(
+                        "session not found, expired, or principal mismatch",
+                    )
             except SessionLostError as exc:
                 # Convert middleware-time SessionLostError into the same
                 # Arrow EXCEPTION-batch response shape that in-dispatch errors
@@ -542,10 +597,6 @@ class _StickyMiddleware:
                 _set_error_response(resp, exc, status_code=HTTPStatus.INTERNAL_SERVER_ERROR)
                 resp.complete = True
                 return
-            # Acquire the per-session RLock for the duration of dispatch.
-            # Released in process_response. Same-session concurrent calls
-            # serialize here; different-session calls run in parallel.
-            entry.lock.acquire()
             req.context.sticky_entry = entry
             req.context.sticky_entry_lock_acquired = True
             session_id_hex = session_id.hex()
@@ -620,13 +671,10 @@ class _StickyMiddleware:
             session_id = bytes.fromhex(sc.session_id)
         except ValueError:
             return False
-        # Release the per-session RLock before removal so process_response's
-        # release doesn't double-unlock.
-        entry = getattr(req.context, "sticky_entry", None)
-        if entry is not None and getattr(req.context, "sticky_entry_lock_acquired", False):
-            with contextlib.suppress(RuntimeError):
-                entry.lock.release()
-            req.context.sticky_entry_lock_acquired = False
+        # The per-session RLock (held since process_request when this call
+        # resumed the session) stays held: the registry runs state.close()
+        # under that same re-entrant lock, and a call queued behind us finds
+        # the session gone once process_response releases it.
         hit = self._registry.close(session_id)
         # Clear the contextvar so subsequent ctx.session reads return None.
         sc_token = getattr(req.context, "sticky_session_token", None)
